@@ -32,7 +32,10 @@ Definition fname := string.      (* name of an entry inside a directory *)
 Inductive content :=
 | CEmpty                                         (* zero bytes: a Spec-named file of this kind fails to load *)
 | CBad                                           (* non-empty, not a valid Spec: fails to load *)
-| CSpec (kind : string) (devs : list string).    (* a valid Spec: its kind (vendor/class) and device names (distinct) *)
+| CSpec (kind : string) (devs : list string) (tag : string).
+                                                 (* a valid Spec: its kind (vendor/class), device names (distinct) and a tag standing
+                                                    for the rest of the definitions (two Specs that differ only in the tag define
+                                                    the same devices differently) *)
 Definition is_empty (c : content) : bool := match c with CEmpty => true | _ => false end.
 
 (* ---------- directories as association lists (keys unique) ---------- *)
@@ -307,7 +310,8 @@ Fixpoint drain (v : variant) (dirs : list dname) (n : nat) (s : state) : state :
    priority directory defining it at all, provided exactly one file there does; two definitions in one directory
    conflict: no device, and both files are reported in error.  A file that fails to load is reported in error. *)
 Definition qnames (c : content) : list string :=
-  match c with CSpec k devs => map (fun n => k ++ "=" ++ n) devs | _ => [] end.
+  match c with CSpec k devs _ => map (fun n => k ++ "=" ++ n) devs | _ => [] end.
+Definition ctag (c : content) : string := match c with CSpec _ _ t => t | _ => "" end.
 Definition defs (d : dname) (v : dirc) : list (string * string) :=       (* (qualified device, defining file) *)
   flat_map (fun p => map (fun q => (q, d ++ "/" ++ fst p)) (qnames (snd p))) v.
 Definition count_def (q : string) (l : list (string * string)) : nat :=
@@ -322,7 +326,7 @@ Fixpoint resolve (vs : list (dname * dirc)) : list (string * string) :=
       (filter (fun x => unique_def (defs d v) x && negb (mem_s (fst x) higher)) (defs d v) ++ resolve rest)%list
   end.
 
-Definition loads (c : content) : bool := match c with CSpec _ _ => true | _ => false end.
+Definition loads (c : content) : bool := match c with CSpec _ _ _ => true | _ => false end.
 Definition unloadable (d : dname) (v : dirc) : list string :=
   map (fun p => d ++ "/" ++ fst p) (filter (fun p => negb (loads (snd p))) v).
 Definition conflicting (d : dname) (v : dirc) : list string :=
@@ -330,11 +334,25 @@ Definition conflicting (d : dname) (v : dirc) : list string :=
 Definition file_errors (vs : list (dname * dirc)) : list string :=
   flat_map (fun dv => app (unloadable (fst dv) (snd dv)) (conflicting (fst dv) (snd dv))) vs.
 
-(* the answers: ListDevices + GetDevice(..).GetSpec().GetPath(), and the keys of GetErrors
-   (files in error, directories in error) *)
+(* the definition a resolved device has: the tag of the content of its defining file *)
+Fixpoint tag_in (d : dname) (v : dirc) (p : string) : option string :=
+  match v with
+  | [] => None
+  | (n, c) :: r => if String.eqb (d ++ "/" ++ n) p then Some (ctag c) else tag_in d r p
+  end.
+Fixpoint tag_at (vs : list (dname * dirc)) (p : string) : string :=
+  match vs with
+  | [] => ""
+  | (d, v) :: r => match tag_in d v p with Some t => t | None => tag_at r p end
+  end.
+Definition with_tags (vs : list (dname * dirc)) (l : list (string * string)) : list (string * string) :=
+  map (fun x => (fst x, snd x ++ "#" ++ tag_at vs (snd x))) l.
+
+(* the answers: ListDevices + GetDevice(..): the defining file GetSpec().GetPath() and, after a "#", the tag found in the
+   device's edits; and the keys of GetErrors (files in error, directories in error) *)
 Definition answer (dirs : list dname) (s : state) : list (string * string) * list string :=
   let vs := map (fun d => (d, cache s d)) dirs in
-  (resolve vs, (file_errors vs ++ filter (derr s) dirs)%list).
+  (with_tags vs (resolve vs), (file_errors vs ++ filter (derr s) dirs)%list).
 
 (* NewCache on file system f: setup() adds every existing directory, then refresh() *)
 Definition init (dirs : list dname) (f : fsys) : state :=
